@@ -11,7 +11,8 @@ WITNESS = ()
 RULE = (
     "the five documented pairs (Point-Point, Point-Line, Line-Line, Point-Plane, Line-Plane) in both "
     "argument orders; second operand constructed from the first by relation recipe (on/off/free, collinear, "
-    "parallel-off, crossing, skew, in-plane/contains, perpendicular); distance(a,b), distance(b,a) and the "
+    "parallel-off, crossing, skew, in-plane/contains, perpendicular; short and quarter-lattice directions; Point pairs "
+    "differing only by -1 vs -2); distance(a,b), distance(b,a) and the "
     "method forms are compared with sqrt of the exact rational squared distance (1e-9 relative), symmetry "
     "1e-12, and d==0 <=> exact intersection non-empty <=> intersection(a,b) is not None. non-trivial = any "
     "class except two generic points (parallel, coincident, intersecting, skew, in-plane, point on carrier); "
